@@ -41,9 +41,13 @@ def config_job(cfg):
     ok_asm = len(circs) == 2 ** n + 1 and all([g for g in adapt.gates_of(c) if g[0] not in P.IGNORED] == ro and measure_map(c) == [(i, i) for i in range(n)]
                                               and c.metadata["readout info"].qubits is None for c, ro in zip(circs, ros))
     out.append(("C10.circuit_assembly", ok_asm, f"asm:{n}:{conn}", f"{n}-{conn}: tomography circuits are not prep + MUB readout + measure i->i", rp))
-    counts = [tomo.symbolic_counts(n, f"c{j}_") for j in range(len(circs))]
-    probs = []
-    try:
+    import random
+    rnd = random.Random(1000 * n + len(conn))
+    specs = [(ro, n, None, True) for ro in ros]
+
+    def symbolic():
+        counts = [tomo.symbolic_counts(n, f"c{j}_") for j in range(len(circs))]
+        probs = []
         vals = T.FullStateTomographyFitter(tomo.FakeResult(counts), circs).expectation_values()
         if len(vals) != 4 ** n:
             probs.append(f"{len(vals)} Paulis reported, expected {4 ** n}")
@@ -60,11 +64,19 @@ def config_job(cfg):
                 d[ident[0]] = ident[1]
             pj = tomo.check_fitter_dict(d, ros[j], n, n, None, f"c{j}_", True)
             out.append(("C10.fitter.values", not pj, f"fit:{n}:{conn}:{j}", f"{n}-{conn} tomography circuit {j}: {pj[:3]}", dict(rp, circuit=j)))
-    except tomo.SymbolicBranch as e:
-        probs.append(f"fitter branched on a count value: {e}")
-    except Exception as e:
-        probs.append(f"fitter raised {type(e).__name__}: {e}")
-    out.append(("C10.fitter.all_paulis_once", not probs, f"all:{n}:{conn}", f"{n}-{conn}: {probs[:3]}", rp))
+        return probs
+
+    ok, probs = tomo.symbolic_or_withdraw(symbolic, lambda: T.FullStateTomographyFitter(tomo.FakeResult(tomo.dense_concrete(n, len(circs), rnd)), circs).expectation_values())
+    out.append(("C10.fitter.all_paulis_once", ok, f"all:{n}:{conn}", f"{n}-{conn}: {probs[:3]}", rp))
+    # the same value contract on concrete results: deterministic (single-outcome) results for every outcome (n<=4), two-outcome results, dense counts, float probabilities
+    for tag, cl in tomo.concrete_sets(n, len(circs), rnd, all_deltas=n <= 4):
+        try:
+            vals = T.FullStateTomographyFitter(tomo.FakeResult(cl), circs).expectation_values()
+            pc = tomo.check_concrete(vals, specs, cl, n)
+        except Exception as e:
+            pc = [f"fitter raised {type(e).__name__}: {e}"]
+        out.append(("C10.fitter.values.concrete_results", not pc, f"conc:{n}:{conn}:{tag}", f"{n}-{conn}, {tag}: {pc[:3]}",
+                    dict(rp, counts=tag, first_counts=[{k: v for k, v in list(c.items())[:4]} for c in cl[:3]])))
     return out
 
 
@@ -141,9 +153,19 @@ def run(ctx: core.Ctx):
     t = time.time()
     for res in core.pmap(config_job, docs.ADVERTISED, chunks=1):
         for famname, ok, key, what, rp in res:
-            fam = ctx.family(famname, SYM, "native-exec+linear-normal-form+oracle")
-            fam.exhaustive = True
-            fam.domain = "20 configurations x all 2^n+1 circuits x all outcome masks; ALL states via symbolic counts"
+            if famname.endswith("concrete_results"):
+                fam = ctx.family(famname, GROUND, "native+oracle", "value contract on concrete results: every deterministic outcome (n<=4; 8 outcomes for n=5,6), two-outcome results, "
+                                 "dense integer counts, dense float probabilities - outcome keys that never occurred are ABSENT from the dictionaries")
+                fam.exhaustive = True
+                fam.domain = "20 configurations x the listed concrete results"
+            else:
+                fam = ctx.family(famname, SYM, "native-exec+linear-normal-form+oracle")
+                fam.exhaustive = True
+                fam.domain = "20 configurations x all 2^n+1 circuits x all outcome masks; ALL states via symbolic counts"
+            if ok is None:
+                ctx.record(fam, core.UNKNOWN, rp)
+                ctx.undecide(fam, what)
+                continue
             ctx.record(fam, PROVED if ok else REFUTED, rp if fam.total < 2 else None)
             if not ok:
                 ctx.violate(fam, key, what, rp)
@@ -181,11 +203,11 @@ def run(ctx: core.Ctx):
 
 def replay(data):
     inp = data["input"]
-    if "counts" in inp:
+    if "counts" in inp and "first_counts" not in inp:
         print("regenerate with ./check C10 (seeded count data):", inp)
         return 1
     if "connectivity" in inp:
-        bad = [r for r in config_job((inp["n"], inp["connectivity"])) if not r[1]]
+        bad = [r for r in config_job((inp["n"], inp["connectivity"])) if r[1] is False]
     else:
         bad = [r for r in density_job(inp["n"]) if not r[1]]
     for r in bad:
